@@ -191,6 +191,34 @@ fn gen(thorough: bool, seeds: Vec<(String, Vec<u8>, bool)>) -> impl Fn(&mut Enum
                     }
                 }
             }
+            // 3 deviations (thorough): all triples inside one of the first three program headers
+            // over the fields the loader reads
+            if thorough {
+                for g in groups.iter().take(3) {
+                    let g: Vec<&&Field> = g.iter().filter(|f| f.name.starts_with("ph") && !f.name.ends_with("p_paddr") && !f.name.ends_with("p_align")).collect();
+                    for i in 0..g.len() {
+                        for j in i + 1..g.len() {
+                            for k in j + 1..g.len() {
+                                let (fa, fb, fc) = (g[i], g[j], g[k]);
+                                for a in &values(fa, flen) {
+                                    for b in &values(fb, flen) {
+                                        for c in &values(fc, flen) {
+                                            if !e.next() {
+                                                continue;
+                                            }
+                                            let mut m = bytes.clone();
+                                            put(&mut m, fa, *a);
+                                            put(&mut m, fb, *b);
+                                            put(&mut m, fc, *c);
+                                            load(e, name, &m, &format!("{}={:#x},{}={:#x},{}={:#x}", fa.name, a, fb.name, b, fc.name, c), "triple(program-header)");
+                                        }
+                                    }
+                                }
+                            }
+                        }
+                    }
+                }
+            }
             // truncations
             let lens: Vec<usize> = if *generated {
                 (0..bytes.len()).collect()
@@ -239,7 +267,7 @@ pub fn run(tier: Tier) -> i32 {
     let nseeds = sd.len();
     let g = gen(tier.is_thorough(), sd);
     let out = run_enum(&o, &g);
-    enum_evidence(&mut run, &out, "one case = a seed (3 bundled binaries, 6 generated files incl. TLS / dynamic / RELRO / page-sized bss) with 0, 1 or 2 header fields replaced by a value of the boundary alphabet {0,1,2,0x7F,0xFF,0x1000,0xFFFF,2^24,2^31-1,2^31,2^32,2^40,2^63-1,2^63,2^64-0x1000,2^64-1,len-1,len,len+1} plus every defined type constant (pairs: inside one program header, the e_ph* group, the e_sh* group, the symtab/strtab section headers), or truncated (generated files: every length; bundled: every length inside header, program headers, section headers, symbol tables); loaded in a worker with catch_unwind, a 1 GiB single-allocation guard, RLIMIT_AS and a hang watchdog; states = distinct (seed, mutation); distinct_nontrivial = distinct (seed, mutation, outcome, error text)");
+    enum_evidence(&mut run, &out, "one case = a seed (3 bundled binaries, 6 generated files incl. TLS / dynamic / RELRO / page-sized bss) with 0, 1 or 2 (thorough: also 3 inside one of the first three program headers) header fields replaced by a value of the boundary alphabet {0,1,2,0x7F,0xFF,0x1000,0xFFFF,2^24,2^31-1,2^31,2^32,2^40,2^63-1,2^63,2^64-0x1000,2^64-1,len-1,len,len+1} plus every defined type constant (pairs: inside one program header, the e_ph* group, the e_sh* group, the symtab/strtab section headers), or truncated (generated files: every length; bundled: every length inside header, program headers, section headers, symbol tables); loaded in a worker with catch_unwind, a 1 GiB single-allocation guard, RLIMIT_AS and a hang watchdog; states = distinct (seed, mutation); distinct_nontrivial = distinct (seed, mutation, outcome, error text)");
     run.cov("seeds", json!(nseeds));
     run.guard("cases", out.cases >= 20_000 || out.capped, format!("{} inputs", out.cases));
     let okc = out.counters.get("ok").cloned().unwrap_or(0);
